@@ -701,7 +701,7 @@ def get_options(args=None, defaults=None):
 
     if options.unit:
         # XXX Argh.
-        options.layer = ['zope.testrunner.layer.UnitTests']
+        options.layer = [r'^zope\.testrunner\.layer\.UnitTests$']
 
     options.layer = options.layer and {layer: 1 for layer in options.layer}
 
